@@ -11,26 +11,26 @@ St(r) == r.o[CHOOSE i \in StaticObs(r) : TRUE]
 \* group of the context as observed from the syntax tree (only to keep signatures specific)
 ObsClass(r) == LET s == St(r) IN
                IF s.url THEN (IF s.astctx = "Markdown" THEN "mdurl" ELSE "url") ELSE CtxClass(s.astctx)
-KeyKind(r) == IF r.type \in DOMAIN TypeTab /\ TypeTab[r.type].key # "" THEN TypeTab[TypeTab[r.type].key].kind ELSE ""
+KeyKind(r) == IF r.type \in TypeNames /\ Desc(r.type).key # "" THEN Desc(Desc(r.type).key).kind ELSE ""
 Sig(r) == [fam |-> "showtable",
            rel |-> IF ~AcceptedNeverFails(r) THEN "B=>~R" ELSE "R'=>~B",
            cc |-> ObsClass(r), kind |-> r.kind, key |-> KeyKind(r), type |-> r.type]
 
 \* ---- diagnostic: drift of the real observations from the implementation-shaped model
 RangeOf(s) == {s[i] : i \in 1..Len(s)}
-Modelled(r) == r.known /\ r.type \in TypeClasses /\ r.ctx \in DOMAIN CtxTab
+Modelled(r) == r.known /\ r.type \in TypeClasses /\ r.ctx \in AllCtxs
 DriftSet(r) ==
   IF ~Modelled(r) THEN {"unmodelled"}
-  ELSE LET d == TypeTab[r.type] z == (r.val = "zero") IN
+  ELSE LET d == Desc(r.type) z == (r.val = "zero") IN
        (IF d.kind # r.kind \/ d.impl # RangeOf(r.impl) THEN {"descriptor"} ELSE {}) \cup
        UNION {
          LET o == r.o[i]
              stat == IF o.box = "static" THEN r.type ELSE BoxType(o.box)
          IN IF o.builds = "unbindable" THEN {"unbindable:" \o o.box}
             ELSE
-            (IF o.builds \in {"ok", "builderror"} /\ (o.astctx # CtxTab[r.ctx][1] \/ o.url # CtxTab[r.ctx][2])
+            (IF o.builds \in {"ok", "builderror"} /\ (o.astctx # CtxOf(r.ctx)[1] \/ o.url # CtxOf(r.ctx)[2])
                THEN {"ctx:" \o o.box} ELSE {}) \cup
-            (IF o.builds \in {"ok", "builderror"} /\ Built(o) # CheckShow(CtxTab[r.ctx][1], stat)
+            (IF o.builds \in {"ok", "builderror"} /\ Built(o) # CheckShow(CtxOf(r.ctx)[1], stat)
                THEN {"B:" \o o.box} ELSE {}) \cup
             (IF Built(o) /\ o.runerr \in {"none", "cannotshow"} /\ ShowFailed(o) # ModelR(r.ctx, r.type, z)
                THEN {"R:" \o o.box} ELSE {})
